@@ -426,6 +426,13 @@ def check_C12(tier: str, v: Verdict):
             if any(int(x) in shadowed for x in np.unique(pred)) or any(int(x) in shadowed for x in np.unique(ref)):
                 undefined = True
         cfg = rand_cfg(rng, inputs=("UNM", "UNM", "MAT", "SEM"), matchers=("naive", "naive", "merge"))
+        if "single" in kinds.values() and len(kinds) > 1 and cfg["dm"] == "NONE" and rng.random() < 0.7:
+            # a single-instance group next to other groups under a decision threshold: what the single-instance
+            # group is evaluated with (it is already matched, nothing is rejected) must not reach the others
+            cfg["dm"] = rng.choice(["IOU", "DSC"])
+            cfg["dthr"] = list(rng.choice([(1, 2), (2, 3), (1, 1)]))
+            if cfg["dm"] not in cfg["im"]:
+                cfg["im"] = list(cfg["im"]) + [cfg["dm"]]
         dt = np.uint8
         with drive.quiet():
             ev = make_evaluator(cfg, groups=SegmentationClassGroups(groups))
